@@ -450,8 +450,19 @@ def _cmp_vectorised(method, got, shape, tail, singles, tol, who, pc):
                           err, tol))
 
 
+def _halfturn(refdet):
+    """Input region of known finding K5: the minimal rotation taking the
+    documented base tangent (0, -1, 0) of the curved 3-D surfaces to
+    ``axes[0]`` maps the base height axis (0, 0, 1) to ``-axes[1]``."""
+    if refdet.kind not in ('cyl', 'sph'):
+        return False
+    f = rr.rotation_from_to([0.0, -1.0, 0.0], refdet.axes[0]).dot(
+        [0.0, 0.0, 1.0])
+    return bool(np.dot(f, refdet.axes[1]) < -1 + 1e-9)
+
+
 def check_detector(det, refdet, kind, dlo, dhi, dcomps, cb, strata,
-                   scale_extra=0.0):
+                   scale_extra=0.0, amp=1.0):
     """All detector clauses; returns ``{index: surface point}`` of the
     single evaluations (reused by the geometry clauses)."""
     dname = DET_CLS[kind]
@@ -462,7 +473,7 @@ def check_detector(det, refdet, kind, dlo, dhi, dcomps, cb, strata,
                         'got {}'.format(type(det).__name__))
     # axes: normalised input
     got_axes = np.atleast_2d(det.axis if D == 1 else det.axes)
-    _require(got_axes, np.array(refdet.axes), 16 * EPS,
+    _require(got_axes, np.array(refdet.axes), 16 * EPS * amp,
              'C19|detector-axes|{}'.format(dname), 'unit axes')
     if refdet.radius is not None:
         _require(det.radius, refdet.radius, 0.0,
@@ -470,9 +481,11 @@ def check_detector(det, refdet, kind, dlo, dhi, dcomps, cb, strata,
     r = refdet.radius or 0.0
     S = 1.0 + 2 * r + float(np.max(np.abs(np.concatenate([dlo, dhi])))) \
         + scale_extra
-    tol = K_TOL * EPS * S
+    tol = K_TOL * EPS * S * amp
     shape = _bshape(dcomps)
     surf, deriv, normal, meas = {}, {}, {}, {}
+    if _halfturn(refdet):
+        strata.append('curved-axes:halfturn')
     pre = 'C19|raise-single'
     for k, (idx, p) in enumerate(_entries(dcomps, shape)):
         arg = _single_arg(p)
@@ -483,9 +496,7 @@ def check_detector(det, refdet, kind, dlo, dhi, dcomps, cb, strata,
         ref_s = refdet.surface(arg)
         ok, err = _close(s, ref_s, tol)
         if not ok:
-            region = 'value'
-            if r and _close(s, refdet.surface(arg, mirrored=True), tol)[0]:
-                region = 'mirrored'
+            region = 'halfturn' if _halfturn(refdet) else 'value'
             raise Violation(
                 'C19|surface-ref|{}|{}'.format(dname, region),
                 'surface({}) = {} reference {} (err {:.3g}); axes {}'.format(
@@ -709,7 +720,8 @@ def run_geom(desc):
     dname = DET_CLS[kind]
     pat = desc['pat']
     at = g.get('argtype', 'list')
-    argcls = 'array' if at in ('array', 'iarray') else 'seq'
+    argcls = 'array' if (at in ('array', 'iarray') or
+                         mode == 'frommatrix') else 'seq'
     strata = ['geom:{}|{}|{}'.format(cls, mode, kind), 'cls:' + cls,
               'mode:' + mode, 'det:' + kind, 'pattern:' + pat['kind'],
               'check_bounds:' + str(cb), 'argtype:' + at]
@@ -807,7 +819,7 @@ def run_geom(desc):
     # the reference detector uses ODL's own (already verified) unit axes so
     # that the small error of the default rotation does not enter twice
     _, meas = check_detector(geom.detector, ref.det, kind, dlo, dhi, dcomps,
-                             cb, strata, scale_extra=0.0)
+                             cb, strata, amp=amp)
 
     # ---- single-parameter evaluation vs reference and relations -----------
     ev = _GeomEval(geom, cname, M, D)
@@ -1136,7 +1148,8 @@ def _check_slice(geom, ref, sl, cname, argcls, n, M, D, tol, dlo, dhi,
     sub = sel[:6]
     sig = 'C19|slice|' + cname + '|{}|args=' + argcls
     before = _snapshot(geom, sub, dpts, divergent, n)
-    s1 = _call('C19|slice-raise', cname, geom.__getitem__, index)
+    s1 = _call('C19|slice-raise', cname + '|' + type(geom.detector).__name__,
+               geom.__getitem__, index)
     if type(s1).__name__ != cname:
         raise Violation(sig.format('class'), type(s1).__name__)
     got_angles = np.atleast_1d(np.array(s1.angles, dtype=float))
@@ -1157,17 +1170,18 @@ def _check_slice(geom, ref, sl, cname, argcls, n, M, D, tol, dlo, dhi,
                  sig.format('values-ref'), 'sliced det_point_position')
     psig = 'C19|slice-purity|' + cname + '|{}'
     after = _snapshot(geom, sub, dpts, divergent, n)
-    _cmp_snapshot(after, before, 0.0, psig.format('parent-changed') + '|{}',
+    _cmp_snapshot(after, before, tol / 8, psig.format('parent-changed') + '|{}',
                   'the original geometry after slicing')
     _check_purity(passed, cname)
     if sl.get('repeat'):
-        s2 = _call('C19|slice-raise', cname, geom.__getitem__, index)
+        s2 = _call('C19|slice-raise', cname + '|' + type(geom.detector).__name__,
+                   geom.__getitem__, index)
         second = _snapshot(s2, sub, dpts, divergent, n)
         _cmp_snapshot(second, before, tol,
                       psig.format('second-slice-differs') + '|{}',
                       'the second geom[{}]'.format(index))
         again = _snapshot(s1, sub, dpts, divergent, n)
-        _cmp_snapshot(again, first, 0.0,
+        _cmp_snapshot(again, first, tol / 8,
                       psig.format('first-slice-changed') + '|{}',
                       'the first slice after slicing again')
         strata.append('slice-repeat')
@@ -1340,11 +1354,10 @@ def run_factory(desc):
                      'C19|factory-config|{}|det_point_position'.format(fname),
                      'det_point_position({}, {}) vs default configuration'
                      ''.format(a, d))
+            ln = (float(np.sqrt(np.sum(ref.det2src(a, d, normalized=False)
+                                       ** 2))) if ref.divergent else S)
             _require(geom.det_to_src(a, d), ref.det2src(a, d),
-                     K_TOL * EPS * (1 + amax) * 8 * (1 + S / max(
-                         1e-300, np.sqrt(np.sum((ref.det2src(
-                             a, d, normalized=False)
-                             if ref.divergent else np.ones(1)) ** 2)))),
+                     K_TOL * EPS * (1 + amax) * 8 * (1 + S / max(ln, 1e-300)),
                      'C19|factory-config|{}|det_to_src'.format(fname),
                      'det_to_src({}, {}) vs default configuration'.format(
                          a, d))
